@@ -1,6 +1,7 @@
 import RainModel.Lemmas.LoopStopped
 /-!
-The verify command on a stopped torrent ends in `Stopped` with `doVerify` cleared (when some file exists).
+The verify command on a stopped torrent ends in `Stopped` with `doVerify` cleared: through the verifier when
+some file exists, straight from the allocation result when none does (fix for finding C04-F4).
 -/
 namespace Rain.Loop
 
@@ -46,6 +47,47 @@ theorem allocatorRun_to_verifier (m : M) (hf : m.1.failOpen = false) (hbf : m.1.
   rw [hnone _ _ (by simpa using hbf)]
   simp [hadForget, hadInstall]
 
+/-- `stop` on a torrent that is not stopped leaves the stop announcer running. -/
+theorem stop_stopAnn_of_errC (s : St) (e : Bool) (h : s.errC = true) : (s.stop e).stopAnn = true := by
+  rw [stop_eq]
+  split
+  · next hs =>
+    rcases hs with hs | hs
+    · exact ((status_stopping_iff s).1 hs).2
+    · rw [(status_stopped_iff s).1 hs] at h; cases h
+  · simp [stopRun, stopFin]
+
+/-- A fresh bitfield with a verification pending: the flag is cleared and the torrent stops (fix C04-F4). -/
+theorem hadFresh_verify_stops (m : M) (hd : m.1.doVerify = true) (he : m.1.errC = true) (hp : m.1.panicked = none) :
+    (hadFresh m).1.stopAnn = true ∧ (hadFresh m).1.doVerify = false ∧ (hadFresh m).1.panicked = none ∧
+    (hadFresh m).1.errC = true := by
+  unfold hadFresh
+  dsimp only
+  rw [if_pos (by simpa using hd)]
+  simp only [onSt_fst]
+  exact ⟨stop_stopAnn_of_errC _ _ (by simpa using he), by simp, by rw [stop_panicked]; simpa using hp,
+    by simpa using he⟩
+
+/-- Allocation with no bitfield, no file present and a verification pending: nothing to verify, the flag is
+cleared and the torrent stops (fix for finding C04-F4). -/
+theorem allocatorRun_no_files_stops (m : M) (hf : m.1.failOpen = false) (hbf : m.1.bf = none)
+    (hex : ¬ SomeFileExists m.1) (hd : m.1.doVerify = true) (he : m.1.errC = true) (hp : m.1.panicked = none) :
+    (allocatorRun m).1.stopAnn = true ∧ (allocatorRun m).1.doVerify = false ∧
+    (allocatorRun m).1.panicked = none ∧ (allocatorRun m).1.errC = true := by
+  unfold SomeFileExists at hex
+  have hex' := Bool.eq_false_iff.2 hex
+  unfold allocatorRun
+  simp only [hf, Bool.false_eq_true, ↓reduceIte, hex']
+  rw [handleAllocationDone_eq]
+  dsimp only
+  have hnone : ∀ (x : M) (mi : Bool), x.1.bf = none → (hadForget (hadInstall x) mi).1.bf = none := by
+    intro x mi hx
+    unfold hadForget
+    simp [hx]
+  rw [hnone _ _ (by simpa using hbf)]
+  simp only [Bool.not_false, ↓reduceIte]
+  exact hadFresh_verify_stops _ (by simpa using hd) (by simpa using he) (by simpa using hp)
+
 /-- Verification done with `doVerify` set: the flag is cleared and the torrent stops. -/
 theorem handleVerificationDone_doVerify_stop (m : M) (hd : m.1.doVerify = true) (he : m.1.errC = true)
     (hs : m.1.stopAnn = false) (hp : m.1.panicked = none) :
@@ -86,13 +128,50 @@ theorem verify_handle_fields (s : St) (p : Parked) (kn : Nat → Bool) (h : Life
   unfold startCore
   simp [he, hi, i1, i3, hp]
 
-/-- **verify_ends_stopped (general form).** The verify command on a stopped torrent whose metadata is known
-and of which at least one file exists, with no storage failure: the files are (re)opened, verified, the
-bitfield is replaced by the verifier's, `doVerify` is cleared and the torrent is `Stopped` again — or, if a
-tracker does not answer the `stopped` event, `Stopping` with the announcer still waiting — all within the
-op, whatever else is pending. -/
+/-- **The allocator of a restart-for-verify runs to the end.**  Running, allocator started, no bitfield,
+`doVerify` set, both storage gates released, no storage failure: if some file exists the files are opened and
+verified, `handleVerificationDone` clears `doVerify` and stops the torrent; if none exists the allocation
+result itself does (fix for finding C04-F4).  Either way the stop announcer then reports (or waits for a
+hanging tracker). -/
+theorem alloc_verify_settles (n : Nat) (r : M) (hl : Life r.1) (a1 : r.1.panicked = none) (a2 : r.1.stopAnn = false)
+    (a3 : r.1.allocator = true) (a4 : r.1.gateOpen = false) (a5 : r.1.gateRead = false) (a6 : r.1.doVerify = true)
+    (a7 : r.1.bf = none) (a8 : r.1.failOpen = false) (a9 : r.1.errC = true) :
+    (runWorkers (n + 3) r).1.doVerify = false ∧
+    ((runWorkers (n + 3) r).1.errC = false ∨
+      (r.1.stopHang = true ∧ (runWorkers (n + 3) r).1.errC = true ∧ (runWorkers (n + 3) r).1.stopAnn = true ∧
+        (runWorkers (n + 3) r).1.stopHang = true)) := by
+  have hlB := allocatorRun_life r hl a3
+  by_cases hex : SomeFileExists r.1
+  · -- allocation → verifier
+    obtain ⟨b1, b2, b3, b4, b5, b6, b7⟩ := allocatorRun_to_verifier r a8 a7 hex
+    -- verification → stop
+    obtain ⟨c1, c2, c3, c4⟩ := handleVerificationDone_doVerify_stop (allocatorRun r) (by rw [b6]; exact a6)
+      (by rw [b7]; exact a9) (by rw [b3]; exact a2) (by rw [b4]; exact a1)
+    have hlC := handleVerificationDone_life _ hlB b1
+    have hrun : runWorkers (n + 3) r = runWorkers (n + 1) (handleVerificationDone (allocatorRun r)) := by
+      rw [runWorkers_alloc (n + 2) r a1 a2 a3 a4,
+        runWorkers_ver (n + 1) _ (by rw [b4]; exact a1) (by rw [b3]; exact a2) b2 b1 (by rw [b5]; exact a5)]
+    have hsh : (handleVerificationDone (allocatorRun r)).1.stopHang = r.1.stopHang := by
+      simp only [handleVerificationDone_stopHang, allocatorRun_stopHang]
+    -- stop announcer → stopped (or it waits for a hanging tracker)
+    obtain ⟨d1, d2⟩ := settle_not_running n _ hlC c3 c2 (Or.inr c1)
+    rw [hrun]
+    exact ⟨d1, d2.imp id (fun d => ⟨hsh ▸ d.1, d.2⟩)⟩
+  · -- nothing on disk: the allocation result clears the flag and stops
+    obtain ⟨c1, c2, c3, c4⟩ := allocatorRun_no_files_stops r a8 a7 hex a6 a9 a1
+    have hrun : runWorkers (n + 3) r = runWorkers (n + 1 + 1) (allocatorRun r) := runWorkers_alloc (n + 2) r a1 a2 a3 a4
+    have hsh : (allocatorRun r).1.stopHang = r.1.stopHang := by simp only [allocatorRun_stopHang]
+    obtain ⟨d1, d2⟩ := settle_not_running (n + 1) _ hlB c3 c2 (Or.inr c1)
+    rw [hrun]
+    exact ⟨d1, d2.imp id (fun d => ⟨hsh ▸ d.1, d.2⟩)⟩
+
+/-- **verify_ends_stopped (general form).** The verify command on a stopped torrent whose metadata is known,
+with no storage failure: the files are (re)opened; if at least one existed they are verified and the bitfield
+is replaced by the verifier's, if none existed a fresh empty bitfield is installed (fix for finding C04-F4);
+`doVerify` is cleared and the torrent is `Stopped` again — or, if a tracker does not answer the `stopped`
+event, `Stopping` with the announcer still waiting — all within the op, whatever else is pending. -/
 theorem verify_ends_stopped_or_hangs (s : St) (p : Parked) (kn : Nat → Bool) (h : Life s) (he : s.errC = false)
-    (hi : s.info = true) (hp : s.panicked = none) (hf : s.failOpen = false) (hex : SomeFileExists s) :
+    (hi : s.info = true) (hp : s.panicked = none) (hf : s.failOpen = false) :
     (step s p kn .verify).1.st.doVerify = false ∧
     ((step s p kn .verify).1.st.status = .stopped ∨
       (s.stopHang = true ∧ (step s p kn .verify).1.st.status = .stopping ∧
@@ -103,36 +182,20 @@ theorem verify_ends_stopped_or_hangs (s : St) (p : Parked) (kn : Nat → Bool) (
     verify_handle_fields { s with sto := [], mayStart := [], closedDl := [], mayStartI := false } p kn h0 he hi hp
   generalize hm : (handle { s with sto := [], mayStart := [], closedDl := [], mayStartI := false } p kn .verify) = r at *
   have hlA : Life r.1.1 := by rw [← hm]; exact handle_life _ p kn .verify h0
-  -- allocation → verifier
-  have hexA : SomeFileExists r.1.1 := by
-    unfold SomeFileExists at hex ⊢
-    rw [a10, a11]; exact hex
-  obtain ⟨b1, b2, b3, b4, b5, b6, b7⟩ := allocatorRun_to_verifier r.1 (by rw [a8]; exact hf) a7 hexA
-  have hlB := allocatorRun_life r.1 hlA a3
-  -- verification → stop
-  obtain ⟨c1, c2, c3, c4⟩ := handleVerificationDone_doVerify_stop (allocatorRun r.1) (by rw [b6]; exact a6)
-    (by rw [b7]; exact a9) (by rw [b3]; exact a2) (by rw [b4]; exact a1)
-  have hlC := handleVerificationDone_life _ hlB b1
-  have hrun : runWorkers 12 r.1 = runWorkers 10 (handleVerificationDone (allocatorRun r.1)) := by
-    rw [runWorkers_alloc 11 r.1 a1 a2 a3 a4,
-      runWorkers_ver 10 _ (by rw [b4]; exact a1) (by rw [b3]; exact a2) b2 b1 (by rw [b5]; exact a5)]
-  have hsh : (handleVerificationDone (allocatorRun r.1)).1.stopHang = s.stopHang := by
-    simp only [handleVerificationDone_stopHang, allocatorRun_stopHang]; exact a12
-  -- stop announcer → stopped (or it waits for a hanging tracker)
-  obtain ⟨d1, d2⟩ := settle_not_running 9 _ hlC c3 c2 (Or.inr c1)
-  rw [hrun, settle_step _ r.2.2 p.isSome (runWorkers_life 10 _ hlC) (settle_nr d2)]
+  obtain ⟨d1, d2⟩ := alloc_verify_settles 9 r.1 hlA a1 a2 a3 a4 a5 a6 a7 (by rw [a8]; exact hf) a9
+  rw [settle_step _ r.2.2 p.isSome (runWorkers_life 12 _ hlA) (settle_nr d2)]
   refine ⟨d1, ?_⟩
   rcases d2 with d2 | ⟨d2, d3⟩
   · exact Or.inl d2
-  · exact Or.inr ⟨hsh ▸ d2, ⟨d3.1, d3.2.1⟩, d3.2.2⟩
+  · exact Or.inr ⟨a12 ▸ d2, ⟨d3.1, d3.2.1⟩, d3.2.2⟩
 
 /-- **verify_ends_stopped.** With every tracker answering (`stopHang = false`) the verify command on a
 stopped torrent ends in `Stopped` with `doVerify` cleared. -/
 theorem verify_ends_stopped (s : St) (p : Parked) (kn : Nat → Bool) (h : Life s) (he : s.errC = false)
-    (hi : s.info = true) (hp : s.panicked = none) (hf : s.failOpen = false) (hex : SomeFileExists s)
+    (hi : s.info = true) (hp : s.panicked = none) (hf : s.failOpen = false)
     (hh : s.stopHang = false) :
     (step s p kn .verify).1.st.status = .stopped ∧ (step s p kn .verify).1.st.doVerify = false := by
-  obtain ⟨h1, h2⟩ := verify_ends_stopped_or_hangs s p kn h he hi hp hf hex
+  obtain ⟨h1, h2⟩ := verify_ends_stopped_or_hangs s p kn h he hi hp hf
   refine ⟨?_, h1⟩
   rcases h2 with h2 | h2
   · exact h2
